@@ -254,11 +254,14 @@ void orc_c19_edge(int slot, int from, int to) {
     if (to == ST_RUNNING) x.occ_started.push_back(R->gseq);
     if (to == ST_PAUSED || to == ST_STOPPED || to == ST_ZOMBIE) x.occ_stopped.push_back(R->gseq);
     if (!on("C19")) return;
+    // whatever was pending in the mailbox of a module that stops is discarded with it
+    if (to == ST_STOPPED || to == ST_ZOMBIE) for (auto &o : W->c19_obls) if (o.recipient == slot) o.done = true;
     // required occurrences: actual entries into / exits from RUNNING
     const char *topic = nullptr;
     if (to == ST_RUNNING) topic = M_PS_MOD_STARTED;
     else if (from == ST_RUNNING) topic = M_PS_MOD_STOPPED;
     if (!topic) return;
+    if (flush_phase_now()) return;   // emitted by a final-flush handler: may arrive in this loop run or the next (unconstrained)
     // the call (or loop phase) that causes it started with the outermost frame
     uint64_t start = W->frames.empty() ? R->gseq : W->frames.front().gseq;
     for (auto &r : W->slots) {
@@ -280,7 +283,14 @@ void orc_c19_loop_edge(bool started) {
         if (r.st != ST_RUNNING && r.st != ST_PAUSED) continue;
         if (r.st_gseq >= start) continue;
         if (!subscribed_to(r, topic, start)) continue;
-        W->c19_obls.push_back(World::C19Obl{r.idx, topic, -1, started ? R->gseq : start, false});
+        if (started) { W->c19_obls.push_back(World::C19Obl{r.idx, topic, -1, R->gseq, false}); continue; }
+        // loop stopped: the notification is handed over by the final flush, i.e. before we get here
+        if (r.st != ST_RUNNING || r.last_non_running_gseq >= start || r.batch_size || r.batch_timeout || r.pills_pending || !r.pending_exact) continue;
+        if (W->loops.back().poll_failure) continue;
+        int now = r.sys_received.count("1|-1") ? r.sys_received["1|-1"] : 0;
+        oracle_eval("C19.occurrence-notified");
+        if (now == r.c19_stopped_rx_at_loop_start)
+            VIOL("C19", "C19:occurrence-not-notified:CTX_STOPPED", "module slot %d, subscribed to the loop-stopped notification and RUNNING since before the last poll, did not receive it when loop run %lu stopped", r.idx, (unsigned long)W->loops.back().id);
     }
 }
 
@@ -308,10 +318,14 @@ void orc_c19_delivery(Delivery &d) {
             if (W->ctx_tick_ns == 0 && W->ctx_tick_set_gseq < d.gseq && r.tick_times.empty() && !W->c19_tick_ever) VIOL("C19", "C19:tick-without-tick", "tick notification although no tick is configured");
             r.tick_times.push_back(R->now);
             uint64_t period = W->c19_min_tick_ns ? W->c19_min_tick_ns : 1;
+            // arrivals bunch up when the recipient was not RUNNING, batches its events, or the simulated node is slower than the tick:
+            // the bound is asserted for a recipient RUNNING throughout, ticks of >= 1 ms, and seam calls cheaper than the tick
+            bool steady = r.last_non_running_gseq < W->c19_first_tick_gseq && !r.batch_size && !r.batch_timeout && period >= 1000000ULL && R->cfg.cost_ns * 50 < period;
+            if (!steady) { r.tick_times.clear(); continue; }
             size_t m = r.tick_times.size();
             for (size_t i = 0; i < m; i++) {
                 uint64_t dt = R->now - r.tick_times[i];
-                if (m - i > dt / period + 1 + 1)   // (+1: the expiry being delivered, +1: one expiry may wait in the mailbox while the next fires)
+                if (m - i > (dt + R->cfg.timer_late_ns) / period + 3)   // (the expiry being delivered, one waiting in the mailbox, one of phase)
                     VIOL("C19", "C19:ticks-too-frequent", "module slot %d received %zu tick notifications within %lu ns, the configured period is %lu ns", d.slot, m - i, (unsigned long)dt, (unsigned long)period);
             }
             continue;
@@ -340,7 +354,10 @@ void orc_c19_delivery(Delivery &d) {
 }
 
 void orc_c19_loop_end(LoopRun &lr) {
-    if (lr.poll_failure) return;
+    if (lr.poll_failure) {
+        for (auto &o : W->c19_obls) if (o.gseq <= lr.end_gseq) o.done = true;   // a loop cut short by a polling failure owes nothing
+        return;
+    }
     oracle_eval("C19.occurrence-notified");
     for (auto &o : W->c19_obls) {
         if (o.done) continue;
